@@ -10,6 +10,8 @@ def enc_val(v):
         return [Sym("opaque"), 1]
     if isinstance(v, (str, int)):
         return v
+    if isinstance(v, NameParts):
+        return [Sym("part"), [Sym("np"), list(v.first), list(v.von), list(v.last), list(v.jr)]]
     if isinstance(v, list) and all(isinstance(x, str) for x in v):
         return [Sym("names")] + list(v)
     if isinstance(v, list) and all(isinstance(x, NameParts) for x in v):
@@ -89,7 +91,12 @@ def mw_class(err):
     return Sym({"InvalidNameError": "invalidName", "PartialMiddlewareException": "partialMw"}.get(n, "other:" + n))
 
 
-def enc_block(b, md=True):
+def enc_block(b, md=True, prev=True):
+    """prev=False: a duplicate-key block shows previous_block only as (class, key) - see encBlockShallow"""
+    if isinstance(b, M.DuplicateBlockKeyBlock) and not prev:
+        p = b.previous_block
+        kind = "entry" if isinstance(p, M.Entry) else "string" if isinstance(p, M.String) else "other"
+        return [Sym("dupkey"), b.key, [Sym("prev"), Sym(kind), getattr(p, "key", "")], enc_live(b.ignore_error_block, md)]
     if isinstance(b, M.DuplicateFieldKeyBlock):
         return [Sym("dupfield"), sorted(b.duplicate_keys), enc_entry(b.ignore_error_block, md)]
     if isinstance(b, M.DuplicateBlockKeyBlock):
@@ -101,8 +108,8 @@ def enc_block(b, md=True):
     return enc_live(b, md)
 
 
-def enc_blocks(bs, md=True):
-    return [enc_block(b, md) for b in bs]
+def enc_blocks(bs, md=True, prev=True):
+    return [enc_block(b, md, prev) for b in bs]
 
 
 # --- building real blocks from a decoded wire description ---------------------------------------
@@ -114,6 +121,9 @@ def dec_val(x):
         return list(x[1:])
     if isinstance(x, list) and x and x[0] == "parts":
         return [NameParts(first=list(p[1]), von=list(p[2]), last=list(p[3]), jr=list(p[4])) for p in x[1:]]
+    if isinstance(x, list) and x and x[0] == "part":
+        p = x[1]
+        return NameParts(first=list(p[1]), von=list(p[2]), last=list(p[3]), jr=list(p[4]))
     if isinstance(x, list) and x and x[0] == "opaque":
         return object()
     raise ValueError("bad value %r" % (x,))
